@@ -508,16 +508,18 @@ class NAND(TypeReaderCryptoBase):
                 'agb': self._crypto.create_ctr_io(Keyslot.AGB, new_subfile(), self.counter),
             })
 
-            with self.open_raw_section(self.ctr_index) as f:
-                f.seek(0x1BE)
-                ctr_mbr = f.read(0x42)
-                try:
-                    self.ctr_partitions = parse_mbr_lazy(ctr_mbr)
-                    logger.info('Loaded CTR partitions')
-                except InvalidNANDError:
-                    logger.error('Could not load CTR partitions', exc_info=True)
+            # (a table without a CTR partition: the other partitions that use these base files are still served)
+            if self.ctr_index is not None:
+                with self.open_raw_section(self.ctr_index) as f:
+                    f.seek(0x1BE)
+                    ctr_mbr = f.read(0x42)
+                    try:
+                        self.ctr_partitions = parse_mbr_lazy(ctr_mbr)
+                        logger.info('Loaded CTR partitions')
+                    except InvalidNANDError:
+                        logger.error('Could not load CTR partitions', exc_info=True)
 
-        if self.counter_twl:
+        if self.counter_twl and self.twl_index is not None:
             self._base_files['twl'] = self._crypto.create_ctr_io(Keyslot.TWLNAND, new_subfile(), self.counter_twl)
 
             with self.open_raw_section(self.twl_index) as f:
